@@ -29,6 +29,7 @@ from . import sched
 from .sched import InjectedError, current_exec
 
 MARK = "@"
+LIVE: Dict[str, Any] = {}  # run-time objects for the liveness probes of C17
 
 
 # ---------------------------------------------------------------------------- values
@@ -88,6 +89,20 @@ def compute(fn: str, spec: Dict[str, Any], site: Optional[str], args: Tuple[Any,
         return tuple(args)
     if kind == "const":
         return dec(spec["val"])
+    if kind == "waitev":
+        # liveness probe: blocks until a sibling coroutine of the same event loop sets the event
+        ok = LIVE["event"].wait(LIVE.get("timeout", 20.0))
+        if not ok:
+            LIVE["timed_out"] = True
+        return ("waitev", bool(ok))
+    if kind == "barrier":
+        try:
+            LIVE["barrier"].wait(LIVE.get("timeout", 20.0))
+            ok = True
+        except Exception:  # BrokenBarrierError
+            ok = False
+            LIVE["timed_out"] = True
+        return term(fn, full, kwargs) + (ok,)
     if kind == "bomb":
         if args and args[0] == "BOOM":
             raise InjectedError(site or fn)
